@@ -28,6 +28,9 @@ TRUSTED = [
 ]
 ASSUMPTIONS = [
     "names are unique per level and are not Namespace attribute names, meta keys or 'class_path'/'init_args'/'dict_kwargs'",
+    "the arguments of a subcommand do not reuse a top-level argument name of the parent parser, and a foreign key inserted at "
+    "the top level is not named like an argument of a subcommand (ActionTypeHint._check_type looks up cfg.get(self.dest) in the "
+    "PARENT's namespace for prev_val: an unrelated cross-talk, 'No action for key ... to set its default')",
     "the parser's flat action table with dotted dests is represented by the declaration tree it was built from",
     "argv as individual options and individual environment variables are not modelled (the configuration travels as a "
     "whole: object, config string, --cfg string, APP_CFG string)",
@@ -36,6 +39,7 @@ ASSUMPTIONS = [
     "_apply_actions' breadth-first queue is modelled depth-first; generated cases carry at most one insertion and one removal",
 ]
 EXHAUSTIVE = {"quick": False, "thorough": False}
+# class 9 (outside the guard AND neither the faithful model nor the property explains the observation) is deliberately not listed
 FINDING_CLASSES = {1: "foreign-key-empty-mapping", 2: "foreign-key-in-discarded-subcommand-section",
                    3: "foreign-key-beside-class-path-misnamed"}
 
@@ -289,6 +293,8 @@ def mutants(rng, p, cfg, tier):
             others = [n for n in others if n not in subnames]
         if others:
             names.append(rng.choice(others))
+        if path == () and p["sub"]:
+            names.append(p["sub"]["dest"][:2])  # a foreign key that is a string prefix of a declared destination
         for name in names:
             vals = FOREIGN_VALUES if tier == "thorough" else rng.sample(FOREIGN_VALUES, 3)
             for v in vals:
@@ -332,7 +338,7 @@ def mutants(rng, p, cfg, tier):
 
 def generate(rng, tier):
     cases = []
-    nparsers = 60 if tier == "quick" else 600
+    nparsers = 60 if tier == "quick" else 250
     for _ in range(nparsers):
         g = Gen(rng)
         p = g.parser()
@@ -450,6 +456,8 @@ def describe(case, obs):
 def shrink(case):
     cfg = case["cfg"]
     for path, _ in list(all_keys(cfg)):
+        if path[-1] == "class_path":
+            continue  # a class value without class_path is outside the modelled space
         try:
             c = remove(cfg, path, False)
         except (KeyError, IndexError, TypeError):
@@ -462,16 +470,28 @@ def shrink(case):
 
 
 META = {
-    "level_text": "Theorems in coq/Properties/C06.v over ALL declaration trees and ALL configuration trees of the model "
-                  "(Model/C06Validate.v: check_values with depth-sorted keys, branch-key escape, group/subcommand error variants, "
-                  "the lenient _apply_actions pre-pass, subcommand selection, check_required with subcommand recursion, and the "
-                  "nested per-class parsers for List[dataclass] items and init_args): an accepted configuration has no undeclared "
-                  "key at any nesting level (outside two narrow finding classes), an unknown-key error names a key that is in the "
-                  "configuration and is not declared, and acceptance implies every required key of the closure is present and non-null. "
-                  "The model is tied to the real parser by running generated parsers on mutated valid configurations through four "
-                  "channels and comparing accept/reject and the named key inside Coq.",
-    "level_note": "Trusted: Coq kernel/VM; faithfulness of the hand-written model outside the generated cases; the harness that builds "
-                  "the real parser from the declaration tree and extracts the named key. Individual argv options / environment "
-                  "variables, nested subcommands, dict_kwargs and positionals are not modelled.",
-    "technique": "Rocq proof by induction on nesting fuel and on the configuration tree + correspondence run judged in Coq",
+    "level_text": "Theorems in coq/Properties/C06.v, for ALL declaration trees, ALL configuration trees and any fuel of the model "
+                  "(Model/C06Validate.v: the lenient _apply_actions pre-pass, subcommand selection, check_values with depth-sorted keys, "
+                  "branch-key escape and the group/subcommand error variants, check_required with the recursion into the selected "
+                  "subcommand, and the nested per-class parsers for List[dataclass] items and init_args): "
+                  "(1) C06_accepted_has_no_undeclared_key: an accepted configuration has no undeclared key at any nesting level (top "
+                  "level, dotted groups, dataclass fields, init_args of a class, list items, section of the subcommand in force) other "
+                  "than keys of three listed finding classes; guarded form C06_accepted_only_if_all_keys_declared with the judge's "
+                  "guard_class; (2) C06_accepted_only_if_required_present: acceptance implies every required key of the closure (own "
+                  "arguments, those of the subcommand in force, required fields of every list item, required parameters of the selected "
+                  "class, recursively) is present and non-null, and C06_required_subcommand_selected: a required subcommand is selected "
+                  "and declared; (3) C06_unknown_key_error_only_if_undeclared: an unknown-key error is raised only when the configuration does "
+                  "contain an undeclared key; (4) three _refuted witnesses (kernel-evaluated) for the findings. "
+                  "That the key NAMED by the error is the offending one is NOT a theorem: it is checked per case by the correspondence (the key "
+                  "extracted from the real ArgumentError must be a suffix of an undeclared / missing key path of the reference semantics, "
+                  "judged inside Coq), as are the agreement of the four channels and the refusal of parse_known_args for external callers.",
+    "level_note": "Trusted: Coq kernel/VM; faithfulness of the hand-written model outside the generated cases (tied by per-case agreement "
+                  "on accept/reject, error family and named key); the harness that builds the real parser from the declaration tree and "
+                  "extracts the named key with one regex per message family. Hypothesis wf_parser (subcommand names / dest are not also "
+                  "argument names of the parent) is checked per case. Not modelled: individual argv options and environment variables "
+                  "(the configuration travels whole: object, config string, --cfg, APP_CFG), nested subcommands, dict_kwargs, positionals, "
+                  "value errors other than shape mismatches, a top-level key named like an argument of a subcommand (cross-talk through "
+                  "ActionTypeHint prev_val, see notes/C06.md).",
+    "technique": "Rocq proof (induction on nesting fuel and nested induction on the configuration tree; first-failure / event-list "
+                 "invariants) + correspondence run judged in Coq",
 }
